@@ -583,7 +583,10 @@ Proof.
   - mrun. destruct (p_rcfg (d_p s1)) as [r'|] eqn:Hr'; [|exfalso; dsolve].
     destruct (r_check_limit r' <=? p_check_count (d_p s1) + 1).
     + dcall declare_fault_ok; [dsolve | dsolve | intros e s' H; dsolve |].
-      intros fh s' H. mfin. dsolve.
+      (* F34 repair: with the handler IGNORE the call goes on counting; the timer object is still there *)
+      intros fh s' H. mrun. destruct (fh =? FH_IGNORE); [|mfin; dsolve].
+      mrun. destruct (p_check_timer (d_p s')) as [[t0 tmo]|] eqn:Ht'; [|exfalso; dsolve].
+      mfin. dsolve.
     + mrun. destruct (p_check_timer (d_p s1)) as [[t0 tmo]|] eqn:Ht'; [|exfalso; dsolve].
       mfin. dsolve.
 Qed.
@@ -1046,6 +1049,23 @@ Proof.
   - sfin. ssolve.
 Qed.
 
+(* an ignored fault changes the event log only (F34 repair: the callers carry on in that case) *)
+Lemma declare_fault_s_ok2 : forall c s, source_wf s -> q_tid (s_p s) <> None ->
+  postx (fun _ s' => source_wf s' /\ (fault_ignored (s_cfg s') c = true -> ssv s' = ssv s)) SE0 (declare_fault_s c s).
+Proof.
+  intros c s W T. pose proof (declare_fault_s_ok c s W T) as X.
+  pose proof (minv_state _ _ _ s (cfg_declare_fault_s c)) as Hc.
+  assert (fault_ignored (s_cfg s) c = true -> postx (fun _ s' => ssv s' = ssv s) SNoE (declare_fault_s c s)) as Y.
+  { intro Hig. unfold declare_fault_s. srun. unfold fault_ignored in Hig.
+    destruct (q_tid (s_p s)) as [[a b]|]; [|contradiction T; reflexivity].
+    destruct (get_fault_handler (l_faults (s_cfg s)) c) as [h|]; [|discriminate Hig].
+    apply Z.eqb_eq in Hig. subst h.
+    change (FH_IGNORE =? FH_CANCEL) with false. change (FH_IGNORE =? FH_ABANDON) with false. cbv iota.
+    srun. sfin. reflexivity. }
+  unfold postx in *. destruct (declare_fault_s c s) as [s1 [u|e]]; cbn [fst] in Hc; [|exact X].
+  split; [exact X|]. rewrite Hc. exact Y.
+Qed.
+
 (* ---- part S3 *)
 Arguments fs_file_exists : simpl never.
 Arguments fs_file_size : simpl never.
@@ -1241,12 +1261,22 @@ Proof.
   destruct (q_ack_timer (s_p s)) as [tm|] eqn:Ht; [|exfalso; ssolve]. srun.
   destruct (q_rcfg (s_p s)) as [r|] eqn:Hr; [|exfalso; ssolve]. srun.
   destruct (negb (timed_out (e_now (s_env s)) tm)); [sfin; ssolve|]. srun.
-  destruct (r_ack_limit r <=? q_ack_counter (s_p s) + 1).
-  - apply declare_fault_s_ok; [exact W | ssolve].
-  - srun. scall checksum_calculation_ok; [ssolve | ssolve | right; ssolve | intros e s' [-> H]; split; [ssolve | exact H] |].
+  (* timer restarted, counter + 1, the EOF again: below the limit, and at the limit if the fault is ignored (F34 repair) *)
+  assert (forall s0, ssv s0 = ssv s -> postx (fun _ s' => source_wf s') SE0
+            ((setq (fun q => q <| q_ack_timer := Some (e_now (s_env s), snd tm) |>
+                                <| q_ack_counter := q_ack_counter (s_p s) + 1 |>) ;;;
+              pr <- gq q_progress ;; ck <- checksum_calculation pr ;; prepare_eof_pdu ck) s0)) as Tail.
+  { intros s0 H0. assert (source_wf s0) as W0 by (eapply wf_ssv; eassumption). srun.
+    scall checksum_calculation_ok; [ssolve | ssolve | right; ssolve | intros e s' [-> H]; split; [ssolve | exact H] |].
     intros ck s1 ->.
     stail prepare_eof_pdu_ok; [ssolve | ssolve | | intros e s' []].
-    intros u s' H. eapply wf_ssv; [exact H|]. ssolve.
+    intros u s' H. eapply wf_ssv; [exact H|]. ssolve. }
+  destruct (r_ack_limit r <=? q_ack_counter (s_p s) + 1).
+  - scall declare_fault_s_ok2; [exact W | ssolve | intros e s' H; exact H |].
+    intros u s1 [W1 Hig]. srun.
+    destruct (fault_ignored (s_cfg s1) C_POS_ACK_LIMIT); [|sfin; exact W1].
+    apply Tail. apply Hig. reflexivity.
+  - apply Tail. reflexivity.
 Qed.
 
 Definition not_file_data (pkt : option pdu) : Prop := match pkt with Some (PFileData _ _ _) => False | _ => True end.
@@ -1276,10 +1306,21 @@ Proof.
   intros rt s1 H1. cbv beta. destruct rt; [sfin; exact H1|]. subst s1.
   assert (forall s0, s0 = s -> postx (fun _ s' => source_wf s') (SEU (nak_offsets_unsigned pkt))
             ((t <- gq q_check_timer ;; n <- snow ;;
-              match t with Some tm => when (timed_out n tm) (declare_fault_s C_CHECK_LIMIT) | None => ret tt end) s0)) as Hchk.
+              match t with
+              | Some tm =>
+                  when (timed_out n tm)
+                    (declare_fault_s C_CHECK_LIMIT ;;;
+                     l <- gets s_cfg ;;
+                     when (fault_ignored l C_CHECK_LIMIT) (setq (fun q => q <| q_check_timer := Some (n, snd tm) |>)))
+              | None => ret tt
+              end) s0)) as Hchk.
   { intros s0 ->. srun. destruct (q_check_timer (s_p s)) as [tm|]; [|sfin; exact W].
     destruct (timed_out (e_now (s_env s)) tm); [rewrite when_true | rewrite when_false; sfin; exact W].
-    stail declare_fault_s_ok; [exact W | ssolve | intros; assumption | intros e s' H; apply SE0_SEU; exact H]. }
+    (* F34 repair: with the handler IGNORE the check timer is restarted, which the invariant does not look at *)
+    scall declare_fault_s_ok; [exact W | ssolve | intros e s' H; apply SE0_SEU; exact H |].
+    intros u s1 W1. srun.
+    destruct (fault_ignored (s_cfg s1) C_CHECK_LIMIT); [rewrite when_true | rewrite when_false; sfin; exact W1].
+    sfin. ssolve. }
   destruct pkt as [[ | | |h cond deliv fstatus fl| | | | ]|]; try (apply Hchk; reflexivity).
   srun. destruct (if s_state _ =? ST_IDLE then false else _); unfold sadd_packet; srun; sfin; ssolve.
 Qed.
